@@ -773,26 +773,102 @@ theorem rowFor_full (cols : List String) (m : MdE) (hc : entryColumns m = cols) 
   simp only [rowFor, hc]
   exact h2
 
-theorem mdframe_model_holds (ids : List Id) (es : List MdE) (cols : List String)
-    (hlen : es.length = ids.length) (hids : ids.Nodup) (hcols : cols.Nodup)
-    (hhom : ∀ m ∈ es, entryColumns m = cols) :
+theorem entryColumns_shape (m : MdE) : entryColumns m = colsOfShape (m.map itemShape) := by
+  simp only [entryColumns, colsOfShape, List.flatMap_map]
+  apply List.flatMap_congr
+  intro kv _
+  obtain ⟨k, v⟩ := kv
+  cases v <;> simp [itemShape]
+
+theorem widthsStep_fresh (w : List (String × Bool × Nat)) (it : String × Bool × Nat) (h : it.1 ∉ w.map (·.1)) :
+    widthsStep w it = w ++ [it] := by
+  unfold widthsStep
+  have : w.any (fun e => e.1 == it.1) = false := by
+    simp only [List.any_eq_false, beq_iff_eq]
+    intro e he hk
+    exact h (List.mem_map.mpr ⟨e, he, hk⟩)
+  simp [this]
+
+theorem foldl_widthsStep_fresh (its : List (String × Bool × Nat)) :
+    ∀ acc : List (String × Bool × Nat), ((acc ++ its).map (·.1)).Nodup → its.foldl widthsStep acc = acc ++ its := by
+  induction its with
+  | nil => intro acc _; simp
+  | cons it its ih =>
+    intro acc h
+    have hk : it.1 ∉ acc.map (·.1) := by
+      simp only [List.map_append, List.map_cons, List.nodup_append, List.nodup_cons] at h
+      intro hmem
+      exact h.2.2 _ hmem _ (by simp) rfl
+    simp only [List.foldl_cons, widthsStep_fresh acc it hk]
+    rw [ih (acc ++ [it]) (by simpa using h)]
+    simp
+
+theorem widthsStep_same (w : List (String × Bool × Nat)) (it : String × Bool × Nat) (hmem : it ∈ w)
+    (hnd : (w.map (·.1)).Nodup) : widthsStep w it = w := by
+  unfold widthsStep
+  have hany : w.any (fun e => e.1 == it.1) = true := by
+    simp only [List.any_eq_true, beq_iff_eq]
+    exact ⟨it, hmem, rfl⟩
+  simp only [hany, if_true]
+  conv => rhs; rw [← List.map_id w]
+  apply List.map_congr_left
+  intro e he
+  by_cases hk : e.1 = it.1
+  · have : e = it := List.inj_on_of_nodup_map hnd he hmem hk
+    subst this
+    obtain ⟨k, b, n⟩ := e
+    cases b <;> simp
+  · simp [hk]
+
+theorem foldl_widthsStep_same (its w : List (String × Bool × Nat)) (h : ∀ it ∈ its, it ∈ w)
+    (hnd : (w.map (·.1)).Nodup) : its.foldl widthsStep w = w := by
+  induction its with
+  | nil => rfl
+  | cons it its ih =>
+    simp only [List.foldl_cons, widthsStep_same w it (h it (by simp)) hnd]
+    exact ih (fun x hx => h x (by simp [hx]))
+
+/-- entries of one shape: the layout pass ends with that shape -/
+theorem layout_homog (sh : List (String × Bool × Nat)) (hk : (sh.map (·.1)).Nodup) :
+    ∀ (es : List MdE), (∀ m ∈ es, m.map itemShape = sh) → es ≠ [] →
+      (es.flatMap (·.map itemShape)).foldl widthsStep [] = sh
+  | [], _, hne => absurd rfl hne
+  | m0 :: rest, h, _ => by
+    have h0 := h m0 (by simp)
+    simp only [List.flatMap_cons, List.foldl_append, h0]
+    rw [foldl_widthsStep_fresh sh [] (by simpa using hk)]
+    simp only [List.nil_append]
+    apply foldl_widthsStep_same _ _ _ hk
+    intro it hit
+    obtain ⟨m, hm, hit'⟩ := List.mem_flatMap.mp hit
+    rw [h m (by simp [hm])] at hit'
+    exact hit'
+
+/-- `metadata_to_dataframe`: refuses an axis without metadata; otherwise (every ID carrying categories
+of one shape, distinct keys and column names) the frame is indexed by the IDs in order and, for every
+ID, shows every value of that ID's entry under its column, and nothing else -/
+theorem mdframe_model_holds (ids : List Id) (es : List MdE) (sh : List (String × Bool × Nat))
+    (hlen : es.length = ids.length) (hids : ids.Nodup) (hk : (sh.map (·.1)).Nodup) (hcols : (colsOfShape sh).Nodup)
+    (hsh : ∀ m ∈ es, m.map itemShape = sh) :
     holdsMdFrame ids none (mdFrameM ids none) = true ∧
     holdsMdFrame ids (some es) (mdFrameM ids (some es)) = true := by
   refine ⟨by simp only [holdsMdFrame, mdFrameM]; decide, ?_⟩
+  have hhom : ∀ m ∈ es, entryColumns m = colsOfShape sh := by
+    intro m hm; rw [entryColumns_shape, hsh m hm]
   cases hes : es with
   | nil =>
     subst hes
     have : ids = [] := List.length_eq_zero_iff.mp (by simpa using hlen.symm)
     subst this
-    simp [holdsMdFrame, mdFrameM]
+    simp [holdsMdFrame, mdFrameM, colsOfShape]
   | cons m0 rest =>
     rw [← hes]
     have hne : es ≠ [] := by rw [hes]; simp
-    have hrows : es.map (rowFor cols) = es.map entryRow := by
+    have hrows : es.map (rowFor (colsOfShape sh)) = es.map entryRow := by
       apply List.map_congr_left
       intro m hm
-      exact rowFor_full cols m (hhom m hm) hcols
-    simp only [holdsMdFrame, mdFrameM, mcols_homog cols es hhom hne, hrows, beq_self_eq_true, List.length_map, hlen,
+      exact rowFor_full _ m (hhom m hm) hcols
+    simp only [holdsMdFrame, mdFrameM, layout_homog sh hk es hsh hne, hrows, beq_self_eq_true, List.length_map, hlen,
       Bool.true_and, Bool.and_eq_true, List.all_eq_true]
     constructor
     · intro ⟨id, m⟩ hm
@@ -803,7 +879,7 @@ theorem mdframe_model_holds (ids : List Id) (es : List MdE) (cols : List String)
       · rw [entryRow_length, hhom m hmes]
       · intro ⟨c, v⟩ hcv
         rw [hhom m hmes] at hcv
-        exact lookupBy_zip_mem cols (entryRow m) c v hcols hcv
+        exact lookupBy_zip_mem _ (entryRow m) c v hcols hcv
       · intro c hc
         rw [hhom m hmes]
         simp [hc]
@@ -833,6 +909,31 @@ theorem mdframe_ragged_keeps_columns :
       (mdFrameM ["a", "b"]
         (some [[("taxonomy", .list ["k", "p", "c"]), ("grp", .scalar "g1")],
                [("taxonomy", .list ["k"]), ("grp", .scalar "g2")]])) = true := by
+  refine ⟨by decide, by decide, by decide⟩
+
+
+
+/-- two uneven list categories, no ID having both at their longest (repaired defect cc0c0aa1): A has
+`t` of 3 and `p` of 1, B has `t` of 1 and `p` of 3 — the frame has all of t_0..t_2, p_0..p_2, with
+B's p_1 and p_2 present, and the predicate holds whichever entry comes first -/
+theorem mdframe_undominated_all_columns :
+    mdFrameM ["A", "B"]
+        (some [[("t", .list ["t0", "t1", "t2"]), ("p", .list ["p0"])],
+               [("t", .list ["u0"]), ("p", .list ["q0", "q1", "q2"])]]) =
+      .ok { index := ["A", "B"], columns := ["t_0", "t_1", "t_2", "p_0", "p_1", "p_2"],
+            rows := [["t0", "t1", "t2", "p0", missing, missing], ["u0", missing, missing, "q0", "q1", "q2"]] } ∧
+    holdsMdFrame ["A", "B"]
+      (some [[("t", .list ["t0", "t1", "t2"]), ("p", .list ["p0"])],
+             [("t", .list ["u0"]), ("p", .list ["q0", "q1", "q2"])]])
+      (mdFrameM ["A", "B"]
+        (some [[("t", .list ["t0", "t1", "t2"]), ("p", .list ["p0"])],
+               [("t", .list ["u0"]), ("p", .list ["q0", "q1", "q2"])]])) = true ∧
+    holdsMdFrame ["B", "A"]
+      (some [[("t", .list ["u0"]), ("p", .list ["q0", "q1", "q2"])],
+             [("t", .list ["t0", "t1", "t2"]), ("p", .list ["p0"])]])
+      (mdFrameM ["B", "A"]
+        (some [[("t", .list ["u0"]), ("p", .list ["q0", "q1", "q2"])],
+               [("t", .list ["t0", "t1", "t2"]), ("p", .list ["p0"])]])) = true := by
   refine ⟨by decide, by decide, by decide⟩
 
 
